@@ -191,6 +191,11 @@ func Check(t TB, prop, kind string, v any, nontrivial bool, labels []string, run
 	done := Inflight(prop, kind, v)
 	err := Guard(run)
 	done()
+	if err != nil && environmentError(err) {
+		// the machine ran out of something (ports, descriptors) underneath the case: nothing was learnt about the library
+		Count(prop, "cases_not_judged_environment", 1)
+		return
+	}
 	if err != nil {
 		WriteFail(prop, kind, v, err.Error())
 		t.Fatalf("%s/%s: %v", prop, kind, err)
@@ -215,6 +220,19 @@ func Inflight(prop, kind string, v any) func() {
 	name := filepath.Join(dir, fmt.Sprintf("inflight-%s-%s-%d.json", prop, kind, os.Getpid()))
 	_ = os.WriteFile(name, b, 0o644)
 	return func() { _ = os.Remove(name) }
+}
+
+// environmentError: errors of the operating system that mean the machine, not the tested code, is out of a resource.
+// Long end-to-end runs leave tens of thousands of loopback ports in TIME_WAIT; sockets that cannot be had then fail
+// harness steps and library calls alike.
+func environmentError(err error) bool {
+	s := err.Error()
+	for _, p := range []string{"bind: address already in use", "cannot assign requested address", "too many open files", "no buffer space available", "no free ports"} {
+		if strings.Contains(s, p) {
+			return true
+		}
+	}
+	return false
 }
 
 // Safe calls a runner and converts a panic on the calling goroutine (the tested code panicking inside a call the
